@@ -14,6 +14,7 @@ KIND_NAMES = ['trunc', 'tear', 'iothrow', 'word', 'pair', 'prestate']
 PROP = 'C08'
 # (build, dumps per stack quick, thorough)
 BUILDS = [('rel-plain', 3, 12), ('dbg-asan', 2, 6), ('rel-asan', 1, 6)]
+BIGDUMPS = {'rel-plain': (6, 40), 'dbg-asan': (2, 12), 'rel-asan': (2, 12)}  # large dumps (1-16 MiB), sampled fault points
 VALGRIND = ('val-plain', 1, 3)  # under valgrind memcheck, small extents
 
 
@@ -142,6 +143,8 @@ def check(tier, seed):
         args = ['--seed', str(seed), '--tier', tier, '--dumps', str(nd), '--disable', disabled]
         if wrapper:
             args.append('--small')
+        else:
+            args += ['--bigdumps', str(BIGDUMPS[b][1 if thorough else 0])]
         res = run.run_once(exe, args + ['--count-units'])
         nunits = 0
         for line in res['out']:
@@ -195,7 +198,7 @@ def check(tier, seed):
               'every header/footer/tag/width word x {each single-bit flip, every layer tag and footer tag, +-0x20000000, 0, ~0, '
               'both magics, other legal width, 0..16 for the width word, 8 seeded random words} - each of these met by the writer\'s own '
               'type AND by every other pool type with the same on-disk signature whose fault-free load succeeds (other interpolator, '
-              'other float width), as is the intact dump behind a stream that is already in a failed state (failbit, badbit, eofbit and their combinations: prestate) - and every reader stack whose format signature differs (must reject the intact dump); distinct = distinct (stack, dump seed, kind, position, value, reader); every case injects a '
+              'other float width), (for a few large dumps of 1-16 MiB per build the truncation points, failing refills and replacement words are sampled instead: first and last bytes, every format word and its neighbourhood, both sides of block boundaries of 2^16 scalars / 1 MiB / 2^20 scalars, seeded offsets) as is the intact dump behind a stream that is already in a failed state (failbit, badbit, eofbit and their combinations: prestate) - and every reader stack whose format signature differs (must reject the intact dump); distinct = distinct (stack, dump seed, kind, position, value, reader); every case injects a '
               'fault, so every case is non-trivial'),
         samples=samples,
         exhaustive=True,
